@@ -110,7 +110,8 @@ def crashLine (w : World) (name : String) (k t : Nat) (go : Bool) : World × Str
     | some d1 =>
       match openOn d1 none with
       | .error e => (w, s!"open{failTxt e}")
-      | .ok (c, _) =>
+      | .ok (c, jo) =>
+        let d1 := d1.applyAll jo
         let curLen := match h.core with | some cc => cc.tree.length | none => 0
         let idx := probeIndices (max curLen h.prevLen)
         let s := probeCore c d1 idx
